@@ -1,6 +1,8 @@
 (* Exact functional specifications (effect + frame) of the world primitives used by the fund-moving
    revenue-distribution processors.  Part 1 of Lemmas_RdSpecs*: world lemmas, primitives, helpers.
-   Every statement is of the form   prim .. = Ok W' -> guards /\ now W' = now W /\ forall k, get W' k = <function of W, k>. *)
+   Every statement is of the form   prim .. = Ok W' -> guards /\ now W' = now W /\ forall k, get W' k = <function of W, k>.
+   Parts: Lemmas_RdSpecs2 (pay-debt, write-off), 3 (finalize-debt / finalize-rewards / enable-write-off), 4 (withdraw-sol,
+   sweep), 5 (distribute-rewards; umbrella import).  The index of all lemma names is at the end of Lemmas_RdSpecs5.v. *)
 From DZ Require Import Base Keys Merkle BurnRate Shares Swap_Ring State World SwapDeq RD Lemmas_Merkle Lemmas_C20.
 
 (* ------------------------------------------------------------------------------------------------ tactics *)
@@ -413,6 +415,11 @@ Proof.
   - intros pos Hne. apply nth_set_nth_other. lia.
 Qed.
 
+(* a processed leaf can never be processed again (in any window that addresses the same bit) *)
+Corollary process_leaf_set_fails tail start end_ idx : range_bit tail start idx = true ->
+  exists e, process_leaf tail start end_ idx = Err e.
+Proof. intros H. apply process_leaf_fails_iff. right. exact H. Qed.
+
 (* the same in terms of bitmap indices: bit j of a bitmap starting at byte s *)
 Lemma bit_index_inj s s' i j : s + i / 8 = s' + j / 8 -> i mod 8 = j mod 8 -> s = s' -> i = j.
 Proof. intros. subst. lia. Qed.
@@ -434,6 +441,11 @@ Proof.
   - intros s e j Hj Hd. unfold range_bit. rewrite Hb.
     destruct (N.eqb_spec (s + j / 8) (start + idx / 8)); cbn; rewrite ?orb_false_r; try reflexivity. exfalso. lia.
 Qed.
+
+(* each leaf is processed at most once: after a success the same index is rejected *)
+Corollary process_leaf_once tail start end_ idx tail' e' : process_leaf tail start end_ idx = Ok tail' ->
+  exists err, process_leaf tail' start e' idx = Err err.
+Proof. intros H. apply process_leaf_set_fails. apply (process_leaf_range_bits _ _ _ _ _ H). Qed.
 
 (* appending zero bytes: old bytes unchanged, new bitmap all clear *)
 Lemma zeros_length n : length (zeros n) = N.to_nat n.
